@@ -3,9 +3,6 @@
 package wsflate
 
 import (
-	"net/url"
-
-	"github.com/gobwas/httphead"
 	"github.com/gobwas/ws"
 )
 
@@ -34,138 +31,4 @@ func (c *vPeer) Read(p []byte) (int, error) {
 	n, err := h.Read(p)
 	c.pos = h.pos
 	return n, err
-}
-
-// C11_peers_agree: the library's Dialer against the library's Upgrader: both succeed with the
-// same subprotocol and the same extensions (with parameters), or both fail.
-func C11_peers_agree() {
-	vRandConcrete(true)
-	var d ws.Dialer
-	var u ws.Upgrader
-	// client subprotocols: an ordered selection from {a,b,c}
-	hole := vU8("tokenbyte") // one arbitrary token character inside a subprotocol name
-	vAssume(vOr(vIn(hole, 'a', 'z'), vOr(vIn(hole, '0', '9'), vOr(hole == '-', hole == '.'))))
-	all := []string{"a", string([]byte{'b', hole}), "c"}
-	order := [][]int{{}, {0}, {1}, {0, 1}, {1, 0}, {2, 0, 1}}[vChoose("protocols", 6)]
-	for _, i := range order {
-		d.Protocols = append(d.Protocols, all[i])
-	}
-	// server selector: arbitrary accept set
-	acc := [3]bool{vBool("acc.a"), vBool("acc.bb"), vBool("acc.c")}
-	selector := vChoose("selector", 2)
-	if selector == 1 {
-		u.Protocol = func(p []byte) bool {
-			for i, name := range all {
-				if string(p) == name {
-					return acc[i]
-				}
-			}
-			return false
-		}
-	}
-	// extensions
-	var e Extension
-	switch vChoose("ext", 5) {
-	case 4: // two offers, both with (different) parameters, both accepted
-		pv := vU8("paramvalue")
-		vAssume(vIn(pv, '0', '9'))
-		d.Extensions = []httphead.Option{httphead.NewOption("x-a", map[string]string{"p": string([]byte{pv})}), httphead.NewOption("x-b", map[string]string{"q": "22"})}
-		u.Extension = func(o httphead.Option) bool { return true }
-	case 1: // permessage-deflate offered, negotiated by the wsflate extension
-		d.Extensions = []httphead.Option{(Parameters{ClientMaxWindowBits: 1, ServerNoContextTakeover: vChoose("snct", 2) == 1}).Option()}
-		e = Extension{Parameters: Parameters{ServerNoContextTakeover: true, ClientNoContextTakeover: vChoose("cnct", 2) == 1, ClientMaxWindowBits: []WindowBits{0, 10}[vChoose("cbits", 2)]}}
-		u.Negotiate = e.Negotiate
-	case 2: // two offers, accept-by-name
-		d.Extensions = []httphead.Option{httphead.NewOption("x-a", map[string]string{"p": "1"}), httphead.NewOption("x-b", nil)}
-		want := []string{"x-a", "x-b", "x-none"}[vChoose("extname", 3)]
-		u.Extension = func(o httphead.Option) bool { return string(o.Name) == want }
-	case 3: // offered but the server negotiates nothing
-		d.Extensions = []httphead.Option{httphead.NewOption("x-a", nil)}
-	}
-	// I/O configuration: one variation at a time
-	env := vChoose("env", 7)
-	switch env {
-	case 1:
-		d.ReadBufferSize = 256
-	case 2:
-		d.WriteBufferSize = 256
-	case 3:
-		u.ReadBufferSize = 256
-	case 4:
-		u.WriteBufferSize = 256
-	case 5:
-		d.ReadBufferSize, u.ReadBufferSize = 16, 16
-	}
-	peer := &vPeer{up: &u}
-	if env == 6 {
-		peer.chunk = 1
-	}
-	uri := &url.URL{Scheme: "ws", Host: "example.com", Path: "/"}
-	br, chs, cerr := d.Upgrade(peer, uri)
-	_ = br
-	vAssert(peer.started, "peers.server_ran")
-	vAssert((cerr == nil) == (peer.srvErr == nil), "peers.both_succeed_or_both_fail")
-	if cerr != nil || peer.srvErr != nil {
-		return
-	}
-	vAssert(vEqStr(chs.Protocol, peer.srvHS.Protocol), "peers.same_subprotocol")
-	vAssert(vOptsEqual(chs.Extensions, peer.srvHS.Extensions), "peers.same_extensions")
-	// ... and with what was offered (names and parameter values), when the server takes offers as they are
-	if u.Extension != nil && len(chs.Extensions) == len(d.Extensions) {
-		vAssert(vOptsEqual(chs.Extensions, d.Extensions), "peers.extensions_as_offered")
-	}
-	// the subprotocol is the first of the client's list the selector accepts
-	want := ""
-	found := false
-	if selector == 1 {
-		for _, i := range order {
-			if !found && vConcrete(vIte(acc[i], 1, 0)) == 1 {
-				want = all[i]
-				found = true
-			}
-		}
-	}
-	vAssert(vEqStr(chs.Protocol, want), "peers.first_acceptable_subprotocol")
-	for _, x := range chs.Extensions {
-		offered := false
-		for _, o := range d.Extensions {
-			if string(o.Name) == string(x.Name) {
-				offered = true
-			}
-		}
-		vAssert(offered, "peers.extensions_come_from_offer")
-	}
-}
-
-// C11_chunking_independent: outcome, handshake data and bytes written by the Upgrader do not
-// depend on how the transport splits the request nor on the read buffer size, including header
-// lines longer than the buffer.
-func C11_chunking_independent() {
-	pad := []int{0, 40}[vChoose("longline", 2)]
-	hole := vBytes("hole", 2)
-	for _, c := range hole {
-		vAssume(vAnd(c != '\r', vAnd(c != '\n', vAnd(c != ':', vAnd(c != ' ', c != '\t')))))
-	}
-	req := []byte("GET /x HTTP/1.1\r\nHost: h\r\nUpgrade: websocket\r\nConnection: Upgrade\r\nSec-WebSocket-Version: 13\r\nSec-WebSocket-Key: dGhlIHNhbXBsZSBub25jZQ==\r\nSec-WebSocket-Protocol: a, ")
-	req = append(req, hole...)
-	req = append(req, "\r\nX-Pad: "...)
-	for i := 0; i < pad; i++ {
-		req = append(req, 'p')
-	}
-	req = append(req, "\r\n\r\n"...)
-	mk := func() ws.Upgrader {
-		return ws.Upgrader{Protocol: func(p []byte) bool { return len(p) == 2 }}
-	}
-	ref := &vHalf{in: req}
-	u0 := mk()
-	hs0, err0 := u0.Upgrade(ref)
-	h := &vHalf{in: req, chunk: []int{1, 7}[vChoose("chunk", 2)]}
-	u1 := mk()
-	u1.ReadBufferSize = []int{16, 64, 0}[vChoose("rbuf", 3)]
-	u1.WriteBufferSize = []int{0, 16}[vChoose("wbuf", 2)]
-	hs1, err1 := u1.Upgrade(h)
-	vAssert((err0 == nil) == (err1 == nil), "chunk.same_outcome")
-	vAssert(hs0.Protocol == hs1.Protocol, "chunk.same_handshake")
-	vAssert(vEqBytes(ref.out, h.out), "chunk.same_bytes_written")
-	vTraceBytes("proto", []byte(hs1.Protocol))
 }
